@@ -556,3 +556,95 @@ Proof.
   { split; [right; split; [lia | intros H; vm_compute in H; discriminate] | right; right; intros H; vm_compute in H; discriminate]. }
   repeat split; reflexivity.
 Qed.
+
+(* ---------------------------------------------------------------------------------------------- *)
+(** * whole inputs: every byte string is rejected or decoded to a canonical value, never a panic *)
+
+Lemma varint_dec_loop_suffix : forall f i acc bs n rest,
+  varint_dec_loop f i acc bs = Some (n, rest) -> exists pre, bs = pre ++ rest.
+Proof.
+  induction f as [|f IH]; intros i acc bs n rest H; [discriminate|].
+  cbn [varint_dec_loop] in H. destruct bs as [|b t]; [discriminate|].
+  destruct (b <? 128).
+  - destruct ((i =? 9) && (1 <? b)); [discriminate|]. injection H as _ <-. exists [b]. reflexivity.
+  - apply IH in H. destruct H as [pre ->]. exists (b :: pre). reflexivity.
+Qed.
+
+Lemma varint_dec_loop_nonneg : forall f i acc bs n rest, 0 <= i -> 0 <= acc -> wf 8 bs ->
+  varint_dec_loop f i acc bs = Some (n, rest) -> 0 <= n.
+Proof.
+  induction f as [|f IH]; intros i acc bs n rest Hi Ha Hwf H; [discriminate|].
+  cbn [varint_dec_loop] in H. destruct bs as [|b t]; [discriminate|].
+  apply wf_cons in Hwf. destruct Hwf as [Hb Ht].
+  assert (Hm : 0 <= (b mod 128) * 2 ^ (7 * i)).
+  { apply Z.mul_nonneg_nonneg; [apply Z.mod_pos_bound; lia | apply Z.pow_nonneg; lia]. }
+  destruct (b <? 128).
+  - destruct ((i =? 9) && (1 <? b)); [discriminate|]. injection H as E1 _. rewrite <- E1. apply Z.add_nonneg_nonneg; assumption.
+  - eapply IH; [| | exact Ht | exact H]; [lia | apply Z.add_nonneg_nonneg; assumption].
+Qed.
+
+Lemma bytes_dec_wf input bs rest : wf 8 input -> bytes_dec input = Some (bs, rest) -> wf 8 bs /\ wf 8 rest.
+Proof.
+  intros Hwf. unfold bytes_dec, varint_dec. destruct (varint_dec_loop 10 0 0 input) as [[n r]|] eqn:E; [|discriminate].
+  apply varint_dec_loop_suffix in E. destruct E as [pre ->]. apply wf_app in Hwf. destruct Hwf as [_ Hr].
+  destruct (n <=? len r); [|discriminate]. intros H. injection H as <- <-.
+  rewrite <- (firstn_skipn (Z.to_nat n) r) in Hr. apply wf_app in Hr. exact Hr.
+Qed.
+
+Theorem w_rbig_dec_total input : wf 8 input ->
+  match w_rbig_dec true input with
+  | Ok (n, d, rest) => rat_canon n d /\ wf 8 rest
+  | Err _ => True
+  | Panic _ | OutOfFuel => False
+  end.
+Proof.
+  intros Hwf. unfold w_rbig_dec, w_rat_fields, w_ibig_dec, w_ubig_dec.
+  destruct (bytes_dec input) as [[b1 r1]|] eqn:E1; [|exact I].
+  destruct (bytes_dec_wf _ _ _ Hwf E1) as [_ Hr1].
+  destruct (bytes_dec r1) as [[b2 r2]|] eqn:E2; [|exact I].
+  destruct (bytes_dec_wf _ _ _ Hr1 E2) as [Hb2 Hr2].
+  pose proof (ubig_dec_nonneg b2 Hb2) as Hd.
+  destruct (rbig_of_fields true (ibig_dec b1) (ubig_dec b2)) as [[n d]| | |] eqn:E3; cbn [rbind].
+  - split; [|exact Hr2]. apply (rbig_of_fields_canonical _ _ (n, d) Hd E3).
+  - unfold rbig_of_fields in E3. destruct (true && (ubig_dec b2 =? 0)); discriminate.
+  - exact I.
+  - unfold rbig_of_fields in E3. destruct (true && (ubig_dec b2 =? 0)); discriminate.
+Qed.
+
+Theorem w_relaxed_dec_total input : wf 8 input ->
+  match w_relaxed_dec true input with
+  | Ok (n, d, rest) => 0 < d /\ wf 8 rest
+  | Err _ => True
+  | Panic _ | OutOfFuel => False
+  end.
+Proof.
+  intros Hwf. unfold w_relaxed_dec, w_rat_fields, w_ibig_dec, w_ubig_dec.
+  destruct (bytes_dec input) as [[b1 r1]|] eqn:E1; [|exact I].
+  destruct (bytes_dec_wf _ _ _ Hwf E1) as [_ Hr1].
+  destruct (bytes_dec r1) as [[b2 r2]|] eqn:E2; [|exact I].
+  destruct (bytes_dec_wf _ _ _ Hr1 E2) as [Hb2 Hr2].
+  pose proof (ubig_dec_nonneg b2 Hb2) as Hd.
+  destruct (relaxed_of_fields true (ibig_dec b1) (ubig_dec b2)) as [[n d]| | |] eqn:E3; cbn [rbind].
+  - split; [|exact Hr2]. apply (relaxed_of_fields_ok _ _ (n, d) Hd E3).
+  - unfold relaxed_of_fields in E3. destruct (ubig_dec b2 =? 0); discriminate.
+  - exact I.
+  - unfold relaxed_of_fields in E3. destruct (ubig_dec b2 =? 0); discriminate.
+Qed.
+
+Theorem w_fbig_dec_total B input : 2 <= B -> wf 8 input ->
+  match w_fbig_dec true B input with
+  | Some (s, e, p, rest) => fbig_canon B s e p /\ wf 8 rest
+  | None => True
+  end.
+Proof.
+  intros HB Hwf. unfold w_fbig_dec, w_repr_fields, w_ibig_dec.
+  destruct (bytes_dec input) as [[b1 r1]|] eqn:E1; [|exact I].
+  destruct (bytes_dec_wf _ _ _ Hwf E1) as [_ Hr1].
+  unfold varint_dec. destruct (varint_dec_loop 10 0 0 r1) as [[u r2]|] eqn:E2; [|exact I].
+  destruct (varint_dec_loop_suffix _ _ _ _ _ _ E2) as [pre2 ->]. apply wf_app in Hr1. destruct Hr1 as [_ Hr2].
+  destruct (varint_dec_loop 10 0 0 r2) as [[p r3]|] eqn:E3; [|exact I].
+  pose proof (varint_dec_loop_nonneg 10 0 0 r2 p r3 ltac:(lia) ltac:(lia) Hr2 E3) as Hp.
+  destruct (varint_dec_loop_suffix _ _ _ _ _ _ E3) as [pre3 ->]. apply wf_app in Hr2. destruct Hr2 as [_ Hr3].
+  destruct (fbig_of_fields true B (ibig_dec b1) (unzigzag u) p) as [[[s e] p']|] eqn:E4; [|exact I].
+  pose proof (fbig_of_fields_canonical B _ _ _ (s, e, p') HB Hp E4) as [Hc ->]. split; assumption.
+Qed.
